@@ -94,10 +94,13 @@ def reduce_1d(reduce_func_name: str, arr, skipna: bool = True, n_threads: int = 
     is_datetime = np.issubdtype(arr.dtype, np.datetime64)
     is_timedelta = np.issubdtype(arr.dtype, np.timedelta64)
     is_count = reduce_func_name == "count"
-    if is_datetime and not is_count:
-        output_converter = pd.to_datetime
-    elif is_timedelta and not is_count:
-        output_converter = pd.to_timedelta
+    if (is_datetime or is_timedelta) and not is_count:
+        # the integers are counts of the array's own time unit
+        unit = np.datetime_data(arr.dtype)[0]
+        to_temporal = pd.to_datetime if is_datetime else pd.to_timedelta
+
+        def output_converter(x):
+            return to_temporal(x, unit=unit)
     else:
         output_converter = np.asarray
 
